@@ -1,5 +1,7 @@
 \* environment faults (one spurious empty read, one read error) and the JSON codec
 CONSTANTS
+  FixExtractOverflow = TRUE
+  FixFramerError = TRUE
   Lfls = {4}
   HostLfls = {4}
   Endians = {TRUE}
